@@ -265,7 +265,11 @@ class Run:
         self.cov["models"].append(entry)
         if r["error"]:
             raise Broken("TLC error in %s/%s:\n%s" % (spec, cfg, r["error"]))
-        if expect == "ok":
+        if expect == "sim":
+            # random walks (tlc -simulate): only used to generate behaviours; an invariant failing on the way is still a spec-level failure
+            if r["violated"]:
+                raise Broken("design model %s/%s (simulation) violates %s" % (spec, cfg, r["violated"]))
+        elif expect == "ok":
             if r["violated"] or not r["completed"]:
                 raise Broken("design model %s/%s does not satisfy its properties (spec-level failure, not a verdict on the code): %s\n%s"
                              % (spec, cfg, r["violated"], r["out"][-3000:]))
@@ -277,7 +281,7 @@ class Run:
                 raise Broken("sensitivity model %s/%s: expected %s to be violated, got %s (vacuous invariant?)\n%s"
                              % (spec, cfg, expect, r["violated"], r["out"][-2000:]))
         log("  model %-22s %-28s %9d distinct %10d generated  %6.1fs  %s" % (spec, cfg, r["distinct"], r["generated"], r["wall_s"],
-                                                                           "ok" if expect == "ok" else "violates " + expect + " as required"))
+                                                                           "ok" if expect in ("ok", "sim") else "violates " + expect + " as required"))
         return r
 
     # -- proofs ----------------------------------------------------------------------------
@@ -715,11 +719,11 @@ class Run:
         os.remove(path)
 
     # -- the WireMachine design model and its behaviours (direction A) ---------------------------
-    def wm_values(self):
+    def wm_values(self, kind="wm"):
         vd = self.build()
-        vals = os.path.join(self.scratch, "wm-values-%d.ndjson" % self.seed)
+        vals = os.path.join(self.scratch, "%s-values-%d.ndjson" % (kind, self.seed))
         if not os.path.exists(vals):
-            p = subprocess.run([vd, "values", "-wm", "-seed", str(self.seed), "-out", vals], capture_output=True, text=True,
+            p = subprocess.run([vd, "values", "-" + kind, "-seed", str(self.seed), "-out", vals], capture_output=True, text=True,
                                env=dict(os.environ, VERIF_SCHEMA=SCHEMA))
             if p.returncode != 0:
                 raise Broken("values -wm failed: " + p.stderr[-1500:])
@@ -728,18 +732,41 @@ class Run:
     def wire_model(self, cfg, expect="ok", note=""):
         return self.model("MCWire.tla", cfg, expect=expect, env={"VERIF_VALUES": self.wm_values()}, note=note)
 
-    def behaviour_replay(self, cfg, sample=None, note="", mode="clauses"):
+    def receiver_design(self, mode="clauses", sample=None, sim=None):
+        """WireMachine with kept receivers and refused decodes (Receivers = TRUE) over a universe of its own: one frame type with three
+        registered bodies (and none), one extension owner with two application ids.  Exhaustive design check, the deviation that must
+        fail, and direction A: every exported behaviour (or a sample) executed on the real types with ONE receiver object per type
+        kept for the whole behaviour."""
+        vals = self.wm_values("wmrcv")
+        deep = self.tier != "quick"
+        self.model("MCWire.tla", "MCWire_rcv_d6.cfg" if deep else "MCWire_rcv_d5.cfg", env={"VERIF_VALUES": vals},
+                   note="kept receivers + refused decodes, every history of <= %d operations: FramesRight, HeadDecodes, ChannelShape, ReceiverIndependent, AppendOnly" % (6 if deep else 5))
+        self.model("MCWire.tla", "MCWire_dev_rcvkeeps.cfg", expect="ReceiverIndependent", env={"VERIF_VALUES": vals})
+        n = self.behaviour_replay("MCWire_rcv_export5.cfg", sample=sample, mode=mode, vals=vals, note="(kept receivers)",
+                                  keep=lambda st: sum(1 for x in st if x["op"] in ("decode", "refused")) >= 2)
+        if sim:
+            n += self.behaviour_replay("MCWire_rcv_sim7.cfg", mode=mode, vals=vals, note="(kept receivers, random walks of 7 operations)",
+                                       extra=["-simulate", "num=%d" % sim, "-depth", "8", "-seed", str(self.seed)], workers=4,
+                                       keep=lambda st: sum(1 for x in st if x["op"] in ("decode", "refused")) >= 2)
+        return n
+
+    def behaviour_replay(self, cfg, sample=None, note="", mode="clauses", vals=None, keep=None, extra=None, workers=None):
         """direction A for the WireMachine model.  TLC exports every behaviour; it is executed on the real types.
         mode "clauses": the recorded events are judged by the trace specification with THIS property's clauses (so that a defect
         of another property in the same bytes is not blamed on this one);  mode "equal": after every step the real observation
         must equal the model's (C02: the model's bytes are the pinned rendering)."""
         import random
-        vals = self.wm_values()
-        r = self.model("MCWire.tla", cfg, env={"VERIF_VALUES": vals}, note="behaviour export for direction A " + note)
+        vals = vals or self.wm_values()
+        r = self.model("MCWire.tla", cfg, env={"VERIF_VALUES": vals}, note="behaviour export for direction A " + note, extra=extra, workers=workers,
+                       expect="sim" if extra else "ok")
         behs = [parse_tla_string(x) for x in tlc_prints(r["out"], "BEHAVIOUR")]
         if not behs:
             raise Broken("no behaviour exported by %s" % cfg)
         total = len(behs)
+        if keep:
+            behs = sorted(set(b for b in behs if keep(json.loads(b))))
+            if not behs:
+                raise Broken("no behaviour of %s passes the filter" % cfg)
         if sample and sample < total:
             random.Random(self.seed).shuffle(behs)
             behs = behs[:sample]
@@ -779,6 +806,17 @@ class Run:
                             ops.append({"op": "new", "o": "m%d" % x["m"], "v": x["vpost"], "tag": "stale-fields"})
                         elif x["op"] == "encode":
                             ops.append({"op": "encode", "b": "b", "o": "m%d" % x["m"], "tag": "model-behaviour"})
+                        elif x["op"] == "decode" and x.get("kept"):
+                            if self.prop == "C15":
+                                # the same buffer content into a fresh receiver first (what C15 compares with)
+                                k = len(ops)
+                                ops.append({"op": "cut", "b": "bf%d" % k, "from": "b", "k": 1 << 30})
+                                ops.append({"op": "decode", "b": "bf%d" % k, "o": "fresh%d" % k, "t": x["t"], "fresh": True, "tag": "same-bytes-fresh-receiver"})
+                            ops.append({"op": "decode", "b": "b", "o": "r_" + x["t"], "t": x["t"], "tag": "model-behaviour-kept-receiver"})
+                        elif x["op"] == "refused":
+                            # a decode the model refuses, into the kept receiver; the caller then drops the buffer
+                            ops.append({"op": "decode", "b": "b", "o": "r_" + x["t"], "t": x["t"], "tag": "model-refuses"})
+                            ops.append({"op": "reset", "b": "b"})
                         elif x["op"] == "decode":
                             ops.append({"op": "decode", "b": "b", "o": "r", "t": x["t"], "fresh": True, "tag": "model-behaviour"})
                         elif x["op"] == "next":
